@@ -104,8 +104,9 @@ class Fresh:
     self.rng, self.used, self.real = rng, set(), real
 
   def point(self, dim):
-    while True:
-      k = self.rng.randint(-20, 20)
+    while True:                               # the range widens as it fills, so this always terminates quickly
+      w = 20 + 2 * len(self.used)
+      k = self.rng.randint(-w, w)
       if k not in self.used:
         self.used.add(k)
         break
